@@ -1045,7 +1045,11 @@ func (tr *Tr) callByContract(fr *Frame, site ssa.Instruction, fn *ssa.Function, 
 		}
 	} else {
 		tr.note("callee contract without modifies clause (heap havocked): " + funcDisplay(fn))
+		logLen := tr.get(post, "ev.len")
 		tr.havocState(post, "callee "+fn.Name())
+		if !tr.P.mayEffect(fn, "devwrite") {
+			tr.assumeNoWriteSince(post, logLen, "events appended by a callee that cannot reach WriteAt are not WRITE events")
+		}
 	}
 	tr.bumpAlloc(post)
 	res := tr.freshVal(fn.Signature.Results(), "r_"+fn.Name())
